@@ -33,6 +33,14 @@ Theorem C14_patch_derives : forall T m n sh p x,
   assoc n m = Some p -> In x (pa_derives p) -> In x (derives_of T (new_named m n sh)).
 Proof. exact patch_derives. Qed.
 
+(* ... also after the schema's `default` has been recorded on the type (convert_ref_type /
+   id_for_schema set details.default in place): name and derive list are unchanged *)
+Theorem C14_patch_derives_survive_default : forall T m n sh p x df,
+  assoc n m = Some p -> In x (pa_derives p) ->
+  In x (derives_of T (record_default (new_named m n sh) df)) /\
+  det_name (e_det (record_default (new_named m n sh) df)) = det_name (e_det (new_named m n sh)).
+Proof. exact patch_derives_survive_default. Qed.
+
 (* the entry carries the NEW name (the old one is not stored anywhere in the entry) ... *)
 Theorem C14_patch_apply : forall m n sh,
   det_name (e_det (new_named m n sh)) =
